@@ -370,7 +370,19 @@ func run(id string, c cfg, tier string, seed int64, replay string) int {
 		}
 		fmt.Printf("  sub-check %s: %s\n", v.Sub, strings.Join(msg, "\n    "))
 	}
+	seenInc := map[string]bool{}
 	for _, m := range inconcl {
+		if len(m) > 700 {
+			m = m[:700] + "..."
+		}
+		key := m
+		if len(key) > 60 {
+			key = key[:60]
+		}
+		if seenInc[key] {
+			continue
+		}
+		seenInc[key] = true
 		fmt.Printf("INCONCLUSIVE property=%s %s\n", id, m)
 	}
 	fmt.Printf("%s %s seed=%d: evaluations=%d distinct_nontrivial=%d violations=%d wall=%.1fs\n",
